@@ -44,6 +44,7 @@ type vhWorld struct {
 	dImg1, dImg2, dArt1, dIdx1 digest.Digest
 	sessA, sessB string // upload session ids in a and b
 	sessASize    int64
+	mutating     bool
 }
 
 func vhSessionID(rec *vhttp.Recorder) string {
